@@ -30,7 +30,7 @@ VERIF = Path(__file__).resolve().parents[2]
 LEAN_DIR = Path(os.environ.get("EKW_LEAN_DIR", str(VERIF / "lean")))
 REPO = Path(os.environ.get("EKW_REPO", "/repo"))
 EVIDENCE_DIR = Path(os.environ.get("EKW_EVIDENCE_DIR", str(VERIF / "evidence")))   # overridden only by tools/seed_eval.py
-REPLAY_DIR = VERIF / "replays"
+REPLAY_DIR = Path(os.environ.get("EKW_REPLAY_DIR", str(VERIF / "replays")))
 CORPUS_DIR = VERIF / "corpus"
 KNOWN_FILE = VERIF / "known_findings.json"
 
